@@ -130,6 +130,14 @@ def step (st : St) (line : String) : St × String :=
         if impl == "PANIC" then (st, "JUDGE C41 parse_timestamp panicked")
         else (st, verdict model impl)
       | _ => (st, "BADLINE ts")
+    else if op.startsWith "tt " then
+      let lit := dec (op.drop 3).toString.toList
+      let model := match timestampText lit with
+        | .ok ns => toString ns
+        | _ => "PANIC"
+      -- a literal of the grammar's shape (time part starts with a one-byte character) must not panic
+      if impl == "PANIC" && timePartOk lit then (st, "JUDGE C41 parse_timestamp panicked on a literal of the grammar's shape")
+      else (st, verdict model impl)
     else (st, "BADLINE op")
 
 --! vmodel: parsertext => Varpulis.Driver.ParserTextD.driver
